@@ -60,6 +60,7 @@ def _dims():
         "trailing": [0, 1, 2, 3],
         "vout0": [0, 1, 2 ** 32 - 1], "value0": [5000000000, 0, 2 ** 64 - 1],
         "prevout0": ["normal", "null"],
+        "dupin": [False, True], "txid0kind": ["filler", "polyglot"],
         "spk0kind": ["filler", "pubkey33", "pubkey65", "p2pkh-text", "p2sh-text", "bech32-text", "bech32m-text"],
     }
 
